@@ -214,8 +214,8 @@ def run_history(plan, workdir):
     bad = []
     try:
         for pno, part in enumerate(parts):
-            r = subprocess.run([sys.executable, driver, json.dumps(part)], capture_output=True, text=True, env=env,
-                               timeout=900)
+            r = subprocess.run([sys.executable, driver, json.dumps(part), "call" if plan.get("same_call") else "steps"],
+                               capture_output=True, text=True, env=env, timeout=900)
             lines = [l for l in r.stdout.splitlines() if l.startswith("{")]
             if not lines:
                 return None, "driver produced no result: " + (r.stderr or r.stdout)[-400:]
@@ -234,7 +234,8 @@ def _check_history(plan, ctx):
         raise RuntimeError(err)
     if bad:
         raise Violation("result under Numba depends on the order of first use (differs from the pure-Python result)",
-                        steps=plan["steps"], cache=plan.get("cache", True), split=plan.get("split", 0), wrong=bad[:3])
+                        steps=plan["steps"], cache=plan.get("cache", True), split=plan.get("split", 0),
+                        same_call=plan.get("same_call", False), wrong=bad[:3])
 
 
 KINDS_B = ["f", "i", "b", "d", "t"]
@@ -286,7 +287,8 @@ def _history(draw):
     for _ in range(n):
         k2 = kind if draw(st.integers(0, 3)) else draw(st.sampled_from(KINDS_B))
         steps.append([draw(st.sampled_from(_helpers_for(k2))), k2])
-    return {"steps": steps, "cache": draw(st.booleans()), "split": draw(st.integers(0, n - 1))}
+    return {"steps": steps, "cache": draw(st.booleans()), "split": draw(st.integers(0, n - 1)),
+            "same_call": draw(st.integers(0, 3)) == 0}
 
 
 def _draw_histories(n, seed_value):
@@ -321,6 +323,9 @@ def extra_leg(tier, seed_base, ctx, known_names, work):
     # a two-process split sharing the cache, and the same with the cache switched off
     plans.append({"steps": [["max", "f"], ["last", "f"]], "cache": True, "split": 1})
     plans.append({"steps": [["min", "d"], ["mode", "d"]], "cache": False, "split": 0})
+    # several helpers as summaries of one aggregate call ("in the same call")
+    plans.append({"steps": [["max", "f"], ["first", "f"], ["mode", "f"]], "cache": True, "split": 0, "same_call": True})
+    plans.append({"steps": [["min", "t"], ["nth", "t"], ["count_unique", "t"]], "cache": True, "split": 0, "same_call": True})
     if tier == "thorough":
         for kind in KINDS_B:
             for a, b in itertools.permutations(_helpers_for(kind), 2):
@@ -349,6 +354,8 @@ def extra_leg(tier, seed_base, ctx, known_names, work):
         classes["history_cache_" + ("on" if p.get("cache", True) else "off")] += 1
         if p.get("split"):
             classes["history_two_processes"] += 1
+        if p.get("same_call"):
+            classes["history_same_call"] += 1
         if bad is None:
             harness = err
             continue
